@@ -12,6 +12,9 @@ Structural clauses decided:
  R6 uptime decomposition: days / hours / minutes are floor(t/86400), floor((t mod 86400)/3600), floor((t mod 3600)/60) of
     t = tsval / frequency; wrap period = u32::MAX / (frequency * 86400)
  R7 grid snap uses the nearest multiple (round) and the tolerance test
+ R8 the frequency grid: every integer rate 0..=2000 maps to the documented grid value (arms of round_frequency_p0f_style extracted
+    as an interval table and evaluated exhaustively)
+ TW IPv4/IPv6 twins label roles identically
 """
 from ..engine import cfg as C
 from ..engine import decision as D
